@@ -20,8 +20,10 @@ class PathDead(Exception):
 
 
 # ----------------------------------------------------------------------------- MIR dump + parse
-def dump_mir(repo='/repo', work='/verif/.work', features=False):
+def dump_mir(repo='/repo', work=None, features=False):
     """Dump MIR of /repo's *current working tree* (copied to a scratch dir, removed afterwards)."""
+    if work is None:
+        work = os.path.join(os.path.dirname(os.path.dirname(os.path.abspath(__file__))), '.work')
     scratch = os.path.join(work, 'mirdump_%d' % os.getpid())
     shutil.rmtree(scratch, ignore_errors=True)
     os.makedirs(scratch)
